@@ -170,10 +170,13 @@ def parseParams? (s : String) : Option (List Param) :=
 inductive Cmd where
   | new (w h : Int)
   | op (o : EOp)
+  /-- continue from the implementation's snapshot without judging (a silently executed prefix) -/
+  | adopt
 
 def parseOp? (line : String) : Option Cmd :=
   match fields line with
   | ["new", w, h] => do some (.new (← w.toInt?) (← h.toInt?))
+  | ["adopt"] => some .adopt
   | ["print", g, w] => do some (.op (.print (← hexBytes? g) (← w.toNat?)))
   | ["c0", n] => do some (.op (.c0 (← n.toNat?)))
   | ["esc", l] => do some (.op (.esc (← hexBytes? l)))
